@@ -259,6 +259,26 @@ def gen_cases(rng, tier):
         if cls == 'sso':
             ham['entries'] = pair_symmetrise(_sso_filter(ham['entries'], norb))
         cases.append({'kind': 'apply', 'norb': norb, 'mode': 'ns', 'n': na + nb, 'sz': na - nb, 'vec': vec, 'ham': ham, 'big': True})
+    # the same low-filling sectors, systematically over (n_alpha, n_beta) and with spin-orbital tensors that have entries in
+    # EVERY spin block of the two-body part (aa, ab, bb - the blocks are contracted by separate branches of the low-filling
+    # kernels) and different one-body blocks for the two spins; dense states on the small sectors
+    lf_shapes = [(7, 1, 2), (7, 2, 1), (7, 2, 2), (7, 0, 2), (7, 2, 0)]
+    for k, (norb, na, nb) in enumerate(lf_shapes if tier == 'quick' else lf_shapes * 3 + [(8, 2, 2), (8, 1, 2)]):
+        keys = fqeio.sector_keys(norb, 'ns', na + nb, na - nb)
+        basis = fqeio.basis_of(norb, keys)
+        vec = [[a, b, rng.randint(-2, 2) or 1, rng.randint(-2, 2)] for a, b in rng.sample(basis, min(len(basis), 30))]
+        ents = []
+        for blk in ('aa', 'bb', 'ab', 'bb', 'aa', 'ab'):
+            o1 = 0 if blk[0] == 'a' else norb
+            o2 = 0 if blk[1] == 'a' else norb
+            p_, r_ = rng.randrange(norb) + o1, rng.randrange(norb) + o1
+            q_, s_ = rng.randrange(norb) + o2, rng.randrange(norb) + o2
+            ents.append([[p_, q_, r_, s_], *_rand_c(rng)])
+        for off in (0, norb):
+            for _j in range(3):
+                ents.append([[rng.randrange(norb) + off, rng.randrange(norb) + off], *_rand_c(rng)])
+        ham = {'cls': 'sso', 'rank': 2, 'entries': pair_symmetrise(_sso_filter(ents, norb)), 'e0': [0, 0], 'real': False}
+        cases.append({'kind': 'apply', 'norb': norb, 'mode': 'ns', 'n': na + nb, 'sz': na - nb, 'vec': vec, 'ham': ham, 'big': True})
     # number-broken wavefunctions: Hermitian FermionOperators with pairing terms
     for _ in range(25 if tier == 'quick' else 100):
         norb = rng.randint(1, 3)
@@ -411,6 +431,12 @@ def run_impl(case, mode):
     after = fqeio.read_state(wfn)
     res = {'out': fqeio.read_state(out), 'keys': sorted([list(k) for k in out.sectors()]),
            'input_unchanged': before == after}
+    # the module-level entry point is the same operation
+    import fqe
+    try:
+        res['api_same'] = fqeio.read_state(fqe.apply(ham, wfn)) == res['out']
+    except Exception as e:  # noqa
+        res['api_same'] = 'raised %s' % type(e).__name__
     if mode == 'C' and case['mode'] == 'ns' and case['ham']['cls'] in ('restricted', 'gso', 'sso', 'general') and case['ham'].get('rank') == 2:
         # the low-filling C kernels of the dense 1+2-body apply: the accelerated path leaves FqeData._low_thresh at 0, so
         # they are reached by setting it (as the repository's own tests do); same expected result
@@ -495,6 +521,8 @@ def compare(case, got, exp, mode):
                 bad.append('coefficient of determinant (alpha,beta)=%s%s: impl %r%+rj, exact %d%+dj' % (key, label, gr, gi, er, ei))
                 if len(bad) > 3:
                     break
+    if got.get('api_same') is not True and 'api_same' in got:
+        bad.append('fqe.apply(ops, wfn) differs from wfn.apply(ops): %s' % got['api_same'])
     if 'lowfill_exc' in got:
         bad.append('apply through the low-filling kernels raised %s' % got['lowfill_exc'])
     return bad
